@@ -18,7 +18,7 @@ def run(tier, rep, replay=None):
     if "Invariant InLockstep is violated" not in rb.out:
         raise C.Infra("MC_Lockstep: seeded back-end deviation not found")
     bins = {"": C.go_build_driver(w, "c14"), "purego": C.go_build_driver(w, "c14", tags="purego")}
-    seeds = [C.SEED] + ([C.SEED + 1000, C.SEED + 2000] if thorough else [])
+    seeds = [C.SEED + 1000 * i for i in range(10 if thorough else 1)]
 
     def one(job):
         (name, tags, dbg), seed = job
@@ -86,6 +86,6 @@ def run(tier, rep, replay=None):
 
 MANIFEST = {
  "text": "A seeded, edge-biased transcript of public operations (fp25519 / fp448 incl. all-ones and complementary unreduced operands and aliased destinations; X25519 / X448 incl. low-order and non-canonical points; FourQ / Curve4Q incl. crafted valid points whose y-coordinate forces a borrow across the word boundary in the vectorised GF(p^2) squaring; P-384 incl. scalar = order and CombinedMult; Ed25519 / Ed448 incl. ctx and ph variants and altered signatures; every kem/schemes KEM (Kyber, ML-KEM, hybrids, X-Wing, FrodoKEM, SIKE) with derive / encapsulate / decapsulate / altered ciphertext / key round trips; every sign/schemes scheme; SHAKE, SHA-3, TurboSHAKE, BLAKE2X, KangarooTwelve with ONE write of up to 33 chunks and with random chunkings; keccakf1600 scalar vs x2 / x4; HPKE over 5 KEMs x 2 AEADs; CSIDH) is run under 7 configurations: default, cpu.avx2=off, cpu.bmi2=off, cpu.adx=off, all three off, -tags purego, purego with all three off. TLC replays the merged transcript against Lockstep.tla (per primitive: consecutive lines, same input digest and same output digest under every configuration); MC_Lockstep shows the specification catches a back-end that deviates on one input.",
- "note": "Inputs are seeded and finite; thorough runs three seeds with four times the repetitions and longer single writes.",
+ "note": "Inputs are seeded and finite; thorough runs ten seeds with four times the repetitions and longer single writes.",
  "technique": "lock-step differential transcript across build/CPU configurations, judged by TLC against a deterministic-machine specification (Lockstep.tla)",
 }
